@@ -160,6 +160,11 @@ class CkptProblem(rc.Problem):
         return out
 
 
+def ext(case):
+    """File name extension of the checkpoint file: every spelling the writer accepts."""
+    return [".h5", ".hdf5", ".h5", ".HDF5"][int(case.get("seed", 0)) % 4]
+
+
 def expected_write_iterations(n_it, cadence):
     return [i for i in range(1, n_it + 1) if i % cadence == 0] + [n_it]
 
